@@ -23,6 +23,15 @@ def is_hash_ty(t):
     return bool(re.match(r'^std::collections::(HashMap|HashSet|hash_map|hash_set)', ty_head(t or '')))
 
 
+def default_hasher(ty):
+    """a std HashMap / HashSet type written without a hasher argument (rustc prints the default RandomState as nothing)"""
+    from facts import ty_head, ty_args
+    t = (ty or '').lstrip('&').replace('mut ', '').strip()
+    h = ty_head(t)
+    n = len(ty_args(t))
+    return (h.endswith('HashMap') and n == 2) or (h.endswith('HashSet') and n == 1) or 'RandomState' in t
+
+
 def run(ctx):
     F = ctx.F
     res = RuleResult('R-NONDET', 'hash iteration order never reaches the emitted bytes')
@@ -43,7 +52,8 @@ def run(ctx):
             intoiter = n.endswith('IntoIterator::into_iter') and k.get('gargs') and is_hash_ty(k['gargs'][0].lstrip('&').replace('mut ', ''))
             if not (hashy or intoiter):
                 continue
-            if 'RandomState' in ga or (hashy and 'BuildIdHasher' not in ga and 'map::' not in ga and re.search(r'HashMap<[^,]+,[^,]+>$|HashSet<[^,]+>$', ga)):
+            if 'RandomState' in ga or (hashy and 'BuildIdHasher' not in ga and 'map::' not in ga and re.search(r'HashMap<[^,]+,[^,]+>$|HashSet<[^,]+>$', ga)) \
+                    or (intoiter and default_hasher(k['gargs'][0])):
                 if last in ITER or intoiter:
                     offenders.append((p, t.get('l'), last))
                 else:
